@@ -5,6 +5,7 @@ cd /repo || exit 3
 git diff --quiet || { echo "repo not clean"; exit 3; }
 git apply "$P" || { echo "patch does not apply"; exit 3; }
 cd /verif
+export PYVC_EVIDENCE_DIR=/tmp/pyvc_evidence   # runs on a patched tree must not overwrite the evidence of the real tree
 for p in "$@"; do
   s=$(date +%s); out=$(./check $p 2>&1); rc=$?; e=$(date +%s)
   echo "== $p rc=$rc $((e-s))s"
